@@ -40,6 +40,9 @@ def gen_cases(tier, seed):
         ops = []
         for j in range(nops):
             ops.append(r.choice(["api", "api", "asm", "futil", "api-multi", "futil-select"]))
+        if k % 4 == 3:
+            # a program name with a Latin-1 letter (one byte on the medium): the image must stay what it is and keep listing everything
+            ops.insert(r.randrange(1, len(ops) + 1), "asm-latin1")
         if k % 4 == 1:
             # an addition that cannot be written (a name with a character no tape or disk can hold) somewhere after the first save
             ops.insert(r.randrange(1, len(ops) + 1), "asm-unwritable")
@@ -169,6 +172,14 @@ def run_history(case, ctx):
                                       {"medium": medium})
                         ok = False
                         break
+            elif op == "asm-latin1":
+                open(os.path.join(d, "p.asm"), "w").write(" ORG $1000\n LDA #2\n RTS\n")
+                nm = r.choice(["caf\u00e9", "\u00c9T\u00c9", "na\u00efve%d" % step])
+                res = fsmon.run_cli("assembler.py", ["p.asm", "--to_" + medium, "img." + medium, "--append", "--name", nm], d)
+                ctx.mon("latin1-named-additions")
+                new = [{"name": nm, "ext": "BIN", "type": 2, "dtype": 0, "load": 0x1000, "exec": 0x1000, "data": bytes([0x86, 2, 0x39]).hex()}]
+                if "Unable to save" in res.out or res.exc:
+                    failed = res.out[-100:]          # refusing such a name is fine - as long as nothing stored is disturbed
             elif op == "asm":
                 nm = "P%d" % step
                 if shadow and r.random() < 0.35:
